@@ -220,10 +220,16 @@ func materialise(c *lazyCase) (*material, *harness.Fail) {
 		m.file = file
 		for ti, tt := range truth.Tracks {
 			for i, o := range tt.ChunkOffset {
+				if tt.ChunkSize[i] == 0 {
+					continue // may lie outside the mdat (EmptyChunkAt)
+				}
 				m.seams = append(m.seams, int(o), int(o+tt.ChunkSize[i]))
 			}
 			for si, o := range tt.SampleOffset {
 				d := c.Tracks[ti].Samples[si].Data
+				if len(d) == 0 {
+					continue // an empty sample of an empty chunk may be placed anywhere (EmptyChunkAt)
+				}
 				if !bytes.Equal(file[o:int(o)+len(d)], d) {
 					return nil, harness.Failf("harness|c08|writer-truth-differs-from-file", "track %d sample %d", ti, si+1)
 				}
@@ -326,6 +332,9 @@ func materialise(c *lazyCase) (*material, *harness.Fail) {
 				}
 				for nr := 1; nr <= tr.X.N; nr++ {
 					o, s := int(tr.X.Offset[nr]), int(tr.X.Size[nr])
+					if s == 0 {
+						o = 0 // no bytes: the position is immaterial (and may lie outside the file)
+					}
 					if o < 0 || s < 0 || o+s > len(m.file) {
 						ok = false
 						break
@@ -1234,7 +1243,7 @@ func genRanges(t *rapid.T, m *material) []rangeQ {
 }
 
 func genProg(t *rapid.T) lazyCase {
-	opt := mp4build.GenOpt{MaxSamples: harness.Pick(30, 60)}
+	opt := mp4build.GenOpt{MaxSamples: harness.Pick(30, 60), AllowZeroSize: true}
 	switch rapid.IntRange(0, 3).Draw(t, "sizeClass") {
 	case 0: // payloads small enough for the exhaustive range sweep
 		opt.MaxTracks, opt.MaxSamples, opt.MaxSampleSize = 2, 6, 8
@@ -1243,6 +1252,7 @@ func genProg(t *rapid.T) lazyCase {
 	}
 	tracks := mp4build.GenTracks(t, opt)
 	lay := mp4build.GenProgLayout(t, tracks)
+	mp4build.GenEmptyChunkAt(t, &lay)
 	c := lazyCase{Kind: "prog", Tracks: tracks, Layout: &lay}
 	c.TrackIndex = rapid.IntRange(0, len(tracks)-1).Draw(t, "trackIndex")
 	if n := len(tracks[c.TrackIndex].Samples); n > allIntervalsMax {
@@ -1320,6 +1330,20 @@ func classify(c *lazyCase, m *material) (nontrivial bool, classes []string) {
 			co64 = co64 || tl.Co64
 		}
 		add(co64, "co64", "")
+		emptyChunk := false
+		for ti, tl := range c.Layout.Tracks {
+			k := 0
+			for _, cs := range tl.ChunkSizes {
+				bytesInChunk := 0
+				for j := 0; j < cs; j++ {
+					bytesInChunk += len(c.Tracks[ti].Samples[k+j].Data)
+				}
+				k += cs
+				emptyChunk = emptyChunk || (cs > 0 && bytesInChunk == 0)
+			}
+		}
+		add(emptyChunk, "chunk-without-bytes", "")
+		add(emptyChunk && c.Layout.EmptyChunkAt != 0, fmt.Sprintf("chunk-without-bytes-placed-outside-mdat-%d", c.Layout.EmptyChunkAt), "")
 	}
 	if c.Kind == "frag" {
 		classes = append(classes, fragbuild.Classes(c.FTracks, *c.FLayout)...)
